@@ -702,6 +702,10 @@ impl Prop for C12 {
         ctx.extra_set("pool", json!(fx.pool.iter().map(|p| p.name).collect::<Vec<_>>()));
         let kmax = ctx.tier.pick(4, 6);
         let np = fx.pool.len();
+        // the bounded families first (the tuple enumeration below is the one that may run into the time cap)
+        export_keep_family(ctx, &fx);
+        // searches on the real server handlers
+        crate::c16::search_family(ctx);
         for k in 0..=kmax {
             ctx.begin_family("ordered_tuples", &format!("k={k} pool={np}"));
             let done = enumr::sequences(k, np, |ix| {
@@ -719,9 +723,6 @@ impl Prop for C12 {
                 return;
             }
         }
-        export_keep_family(ctx, &fx);
-        // searches on the real server handlers
-        crate::c16::search_family(ctx);
     }
 
     fn prepare(&self, _t: Tier) -> Result<(), String> {
